@@ -1280,8 +1280,20 @@ pub fn write_report(
     log: &dyn Log,
     groups: &[FileGroup<FileInfo>],
 ) -> io::Result<()> {
-    let now = Local::now();
+    write_report_at(config, log, groups, Local::now())
+}
 
+/// Writes the list of groups like [`write_report`], recording `now` as the time of the report.
+///
+/// Files modified after the recorded time are not touched by the commands that process the
+/// report. Pass the time when the search for duplicates was started, so that files
+/// modified while the search was running are protected as well.
+pub fn write_report_at(
+    config: &GroupConfig,
+    log: &dyn Log,
+    groups: &[FileGroup<FileInfo>],
+    now: DateTime<Local>,
+) -> io::Result<()> {
     let total_count = file_count(groups.iter());
     let total_size = total_size(groups.iter());
 
